@@ -234,6 +234,30 @@ MUTANTS = [
         "writer swallows a write error",
     ),
     (
+        "c12_export_cursor_shared_between_parsers", "C12", G + "io/genbank/parser.py",
+        "        for i, seqrecord in enumerate(self.seq_records):\n            genes = [GeneFeature.to_gene_model(x) for x in sorted(self.genes[i], key=lambda x: x.start)]\n",
+        "        BaseGenBankParser._cursor = 0\n        for seqrecord in self.seq_records:\n            i = BaseGenBankParser._cursor\n            BaseGenBankParser._cursor += 1\n            genes = [GeneFeature.to_gene_model(x) for x in sorted(self.genes[i], key=lambda x: x.start)]\n",
+        "record cursor of the lazy export loop lives on the class: two parsers stepped alternately read each other's position (sequential use is fine)",
+    ),
+    (
+        "c12_parser_swallows_read_error", "C12", G + "io/genbank/parser.py",
+        "    seq_records = list(SeqIO.parse(genbank_handle_or_path, format=\"genbank\"))\n",
+        "    seq_records = []\n    try:\n        for rec in SeqIO.parse(genbank_handle_or_path, format=\"genbank\"):\n            seq_records.append(rec)\n    except OSError:\n        pass\n",
+        "a read error of the handle ends the parse silently (truncated result returned as if complete)",
+    ),
+    (
+        "c11_parse_chroms_shared_between_parsers", "C11", G + "io/gff3/parser.py",
+        "    non_gene_feature_types = _find_non_gene_feature_types(db)\n\n    for chrom in chroms:\n",
+        "    non_gene_feature_types = _find_non_gene_feature_types(db)\n    _PENDING.clear()\n    _PENDING.extend(chroms)\n\n    while _PENDING:\n        chrom = _PENDING.pop(0)\n",
+        "work list of the lazy GFF3 parse loop is a module-level list: two parsers stepped alternately steal each other's sequences",
+    ),
+    (
+        "c11_fasta_reader_swallows_read_error", "C11", G + "io/gff3/parser.py",
+        "    data = StringIO(gff3_with_fasta_handle.read())\n",
+        "    try:\n        data = StringIO(gff3_with_fasta_handle.read())\n    except OSError:\n        data = StringIO(\"\")\n",
+        "read error after the FASTA header is swallowed: an empty record list is returned as if complete",
+    ),
+    (
         "c10_liftover_memo_keyed_by_id", "C10", G + "location/location.py",
         "        try:\n            self.first_ancestor_of_type(sequence_type)\n        except NoSuchAncestorException:\n            raise NoSuchAncestorException(\"Location has no ancestor of type {}\".format(sequence_type))\n        if self.parent_type == sequence_type:\n            return self\n        lifted_to_grandparent = self.parent.lift_child_location_to_parent()\n        return lifted_to_grandparent.lift_over_to_first_ancestor_of_type(sequence_type)\n",
         "        key = (id(self), str(sequence_type))\n        if key in _LIFT_MEMO:\n            return _LIFT_MEMO[key]\n        try:\n            self.first_ancestor_of_type(sequence_type)\n        except NoSuchAncestorException:\n            raise NoSuchAncestorException(\"Location has no ancestor of type {}\".format(sequence_type))\n        if self.parent_type == sequence_type:\n            return self\n        lifted_to_grandparent = self.parent.lift_child_location_to_parent()\n        res = lifted_to_grandparent.lift_over_to_first_ancestor_of_type(sequence_type)\n        if len(_LIFT_MEMO) < 4096:\n            _LIFT_MEMO[key] = res\n        return res\n",
@@ -243,6 +267,7 @@ MUTANTS = [
 
 # helper text appended for the mutant above (kept separate to keep the table readable)
 EXTRA = {
+    "c11_parse_chroms_shared_between_parsers": (G + "io/gff3/parser.py", "def default_parse_func(", "_PENDING = []\n\n\ndef default_parse_func("),
     "c10_liftover_memo_keyed_by_id": (G + "location/location.py", "class Location(AbstractLocation, ABC):\n", "_LIFT_MEMO = {}\n\n\nclass Location(AbstractLocation, ABC):\n"),
 }
 # planted changes whose trigger is narrow enough that the default quick budget (700 histories) is not a reliable catch:
